@@ -17,7 +17,8 @@ from harness.common.shrink import ddmin
 
 PROP = "C10"
 DRIVER_MODULES = ["PsutilModel.Model.C10Gen", "PsutilModel.Model.C10Front", "PsutilModel.Model.C10Conc",
-                  "PsutilModel.Model.C10Dict", "PsutilModel.Spec.C10"]
+                  "PsutilModel.Model.C10Dict", "PsutilModel.Model.C10Plat", "PsutilModel.Spec.C10",
+                  "PsutilModel.Spec.C10Out", "PsutilModel.Spec.C10Plat"]
 FINDING_FORMS = "C10-forms-share-cache"
 FINDING_SAMPLE = "C10-sample-outside-lock"
 NEEDS_EXT = True
@@ -41,7 +42,8 @@ ASSUMPTIONS = [
 def _name_arg(fn, node):
     """The `name` argument of a _wrap_numbers call → (name of the per-device form, name of the system-wide
     form). Recognised: a string literal, or a variable assigned once in the function by
-    `<var> = 'A' if perdisk else 'B'`."""
+    `<var> = 'A' if perdisk else 'B'`. TOTAL: anything else gives the pair ("?<source text>", "?<source text>"),
+    which is no cache name the model knows, so the name obligations (cfg_good / cfg_forms_good) fail."""
     if isinstance(node, ast.Constant) and isinstance(node.value, str):
         return node.value, node.value
     if isinstance(node, ast.Name):
@@ -50,60 +52,75 @@ def _name_arg(fn, node):
         if len(assigns) == 1 and isinstance(assigns[0].value, ast.IfExp):
             ie = assigns[0].value
             t = extract.dotted(ie.test)
-            if t in ("perdisk", "pernic"):
-                return extract.const(ie.body), extract.const(ie.orelse)
-            if isinstance(ie.test, ast.UnaryOp) and isinstance(ie.test.op, ast.Not) \
-                    and extract.dotted(ie.test.operand) in ("perdisk", "pernic"):
-                return extract.const(ie.orelse), extract.const(ie.body)
-    raise NotRecognised("name argument of _wrap_numbers not recognised: %s" % extract.unparse(node))
+            try:
+                if t in ("perdisk", "pernic"):
+                    return str(extract.const(ie.body)), str(extract.const(ie.orelse))
+                if isinstance(ie.test, ast.UnaryOp) and isinstance(ie.test.op, ast.Not) \
+                        and extract.dotted(ie.test.operand) in ("perdisk", "pernic"):
+                    return str(extract.const(ie.orelse)), str(extract.const(ie.body))
+            except NotRecognised:
+                pass
+        if len(assigns) == 1 and isinstance(assigns[0].value, ast.Constant) and isinstance(assigns[0].value.value, str):
+            return assigns[0].value.value, assigns[0].value.value
+    txt = "?" + extract.unparse(node)[:60]
+    return txt, txt
+
+
+def _wrap_names(tree, fname):
+    """(name of the per-device form, name of the system-wide form) — from the `_wrap_numbers` calls alone, whatever
+    the rest of the function looks like. TOTAL: no call -> ("?none", "?none"); different names at different calls ->
+    ("?several …")."""
+    fn = extract.find_def(tree, fname)
+    pairs = []
+    for c in extract.calls_in(fn, "_wrap_numbers") + extract.calls_in(fn, "wrap_numbers"):
+        arg = c.args[1] if len(c.args) >= 2 else next((k.value for k in c.keywords if k.arg == "name"), None)
+        pairs.append(_name_arg(fn, arg) if arg is not None else ("?missing", "?missing"))
+    if not pairs:
+        return "?none", "?none"
+    if len(set(pairs)) > 1:
+        txt = "?several: " + ", ".join(sorted({p[0] for p in pairs} | {p[1] for p in pairs}))[:80]
+        return txt, txt
+    return pairs[0]
+
+
+def _empty_feeds(tree, fname):
+    """Is an empty raw dict handed to wrap_numbers? TOTAL and conservative: True iff the function calls
+    `_wrap_numbers` and no top-level statement BEFORE the first statement containing such a call can return
+    (the historic front end had `if not rawdict: return …` first), or the returning statement itself feeds it."""
+    fn = extract.find_def(tree, fname)
+    has = lambda st: bool(extract.calls_in(st, "_wrap_numbers") + extract.calls_in(st, "wrap_numbers"))
+    for st in fn.body:
+        if has(st):
+            return True
+        if any(isinstance(x, ast.Return) for x in ast.walk(st)):
+            return False
+    return False
 
 
 def _front_end_facts(tree, fname):
     """→ (name of the system-wide form, empty snapshot fed to wrap_numbers?, name of the per-device form)"""
-    fn = extract.find_def(tree, fname)
-    wrap_name = None
-    empty_feeds = None
-    body = fn.body
-    idx_empty = idx_wrap = None
-    for i, st in enumerate(body):
-        if isinstance(st, ast.If) and isinstance(st.test, ast.UnaryOp) and isinstance(st.test.op, ast.Not) \
-                and extract.dotted(st.test.operand) == "rawdict" \
-                and any(isinstance(x, ast.Return) for x in ast.walk(st)):
-            if idx_empty is None:
-                idx_empty = i
-                inner = extract.calls_in(st, "_wrap_numbers")
-                if inner:
-                    # must be guarded by `nowrap` only
-                    empty_feeds = True
-        calls = extract.calls_in(st, "_wrap_numbers")
-        if calls and idx_wrap is None and not (idx_empty == i):
-            idx_wrap = i
-        for c in calls:
-            if len(c.args) >= 2:
-                nm = _name_arg(fn, c.args[1])
-                if wrap_name is None:
-                    wrap_name = nm
-                elif wrap_name != nm:
-                    raise NotRecognised("%s passes two different names to _wrap_numbers" % fname)
-    if idx_empty is None or idx_wrap is None or wrap_name is None:
-        raise NotRecognised("shape of %s not recognised" % fname)
-    if empty_feeds is None:
-        empty_feeds = idx_wrap < idx_empty
-    return wrap_name[1], empty_feeds, wrap_name[0]
+    per, tot = _wrap_names(tree, fname)
+    return tot, _empty_feeds(tree, fname), per
 
 
 def _clear_names(tree, fname):
     """Names cleared by `<fname>.cache_clear`: `functools.partial(_wrap_numbers.cache_clear, 'N')`, or a
-    module-level function whose body is a sequence of `_wrap_numbers.cache_clear('N')` calls."""
+    module-level function whose body is a sequence of `_wrap_numbers.cache_clear('N')` calls. TOTAL: a statement
+    of another kind in that function adds the entry "?<source text>", an assignment of another shape gives
+    ["?<source text>"], none at all ["?none"] — no known name, so `namesDistinct` / `clearPer` fail."""
     for st in tree.body:
         if isinstance(st, ast.Assign) and len(st.targets) == 1 \
                 and extract.dotted(st.targets[0]) == fname + ".cache_clear":
             c = st.value
             if isinstance(c, ast.Call) and extract.dotted(c.func).endswith("partial") and len(c.args) == 2 \
-                    and extract.dotted(c.args[0]).endswith("cache_clear"):
-                return [extract.const(c.args[1])]
+                    and not c.keywords and extract.dotted(c.args[0]).endswith("wrap_numbers.cache_clear") \
+                    and isinstance(c.args[1], ast.Constant) and isinstance(c.args[1].value, str):
+                return [c.args[1].value]
             if isinstance(c, ast.Name):
-                fn = extract.find_def(tree, c.id)
+                try:
+                    fn = extract.find_def(tree, c.id)
+                except NotRecognised:
+                    return ["?" + c.id]
                 names = []
                 for b in fn.body:
                     if isinstance(b, ast.Expr) and isinstance(b.value, ast.Constant):
@@ -111,13 +128,14 @@ def _clear_names(tree, fname):
                     if isinstance(b, ast.Expr) and isinstance(b.value, ast.Call) and len(b.value.args) == 1 \
                             and not b.value.keywords \
                             and extract.dotted(b.value.func) in ("_wrap_numbers.cache_clear",
-                                                                 "_common.wrap_numbers.cache_clear"):
-                        names.append(extract.const(b.value.args[0]))
+                                                                 "_common.wrap_numbers.cache_clear") \
+                            and isinstance(b.value.args[0], ast.Constant) and isinstance(b.value.args[0].value, str):
+                        names.append(b.value.args[0].value)
                     else:
-                        raise NotRecognised("statement in %s not recognised: %s" % (c.id, extract.unparse(b)))
-                if names:
-                    return names
-    raise NotRecognised("%s.cache_clear assignment not recognised" % fname)
+                        names.append("?" + extract.unparse(b)[:60])
+                return names or ["?empty"]
+            return ["?" + extract.unparse(c)[:60]]
+    return ["?none"]
 
 
 def _clear_name(tree, fname, own):
@@ -139,11 +157,11 @@ def _linux_filter(init, pslinux):
     plat = [c for c in calls if extract.dotted(c.func) == "_psplatform.disk_io_counters"]
     if len(plat) not in (1, 2):
         # one call, or one per branch of `if nowrap:` (fixes/C10-sample-under-lock)
-        raise NotRecognised("call of _psplatform.disk_io_counters not found once or twice")
+        return False      # TOTAL: an unknown shape is not "forwards perdisk and filters"; the model then stops filtering and the correspondence tells
     passes = all(any(k.arg is None and extract.dotted(k.value) == "kwargs" for k in c.keywords) for c in plat) and forwards
     explicit = [k for c in plat for k in c.keywords if k.arg == "perdisk"]
     if explicit:
-        raise NotRecognised("perdisk passed in an unrecognised way")
+        return False
     lfn = extract.find_def(pslinux, "disk_io_counters")
     skips = False
     for n in ast.walk(lfn):
@@ -154,7 +172,7 @@ def _linux_filter(init, pslinux):
                 skips = True
     if "perdisk" not in [a.arg for a in lfn.args.args]:
         if passes:
-            raise NotRecognised("front end passes perdisk but the Linux layer does not take it")
+            return False
         return False
     return passes and skips
 
@@ -166,17 +184,18 @@ def _single_with_lock(fn, lock):
         and extract.dotted(body[0].items[0].context_expr) == lock
 
 
-def _lock_facts(common):
-    """(run only ever executes under _wn.lock, cache_clear/cache_info bodies are inside `with self.lock`)"""
+def _run_under_lock(common):
+    """TOTAL: one `_WrapNumbers()` instance `_wn`, one `threading.Lock()` made in `__init__`, the only `.run(` call is
+    `_wn.run` inside the single `with _wn.lock:` of `wrap_numbers`, the helpers are only called from `run`."""
     cls = extract.find_class(common, "_WrapNumbers")
     init = extract.find_def(common, "__init__", cls="_WrapNumbers")
     locks = [st for st in ast.walk(cls) if isinstance(st, ast.Assign)
              and any(extract.dotted(t) == "self.lock" for t in st.targets)]
     if len(locks) != 1 or locks[0] not in init.body or extract.dotted(locks[0].value) != "threading.Lock()":
-        raise NotRecognised("self.lock is not a threading.Lock() created once in __init__")
+        return False
     inst = [st for st in common.body if isinstance(st, ast.Assign) and extract.dotted(st.value) == "_WrapNumbers()"]
     if len(inst) != 1 or extract.dotted(inst[0].targets[0]) != "_wn":
-        raise NotRecognised("the single instance _wn = _WrapNumbers() not found")
+        return False
     wfn = extract.find_def(common, "wrap_numbers")
     run_calls = [c for c in ast.walk(common) if isinstance(c, ast.Call) and extract.dotted(c.func).endswith(".run")
                  and extract.dotted(c.func).split(".")[0] in ("_wn", "self", "wrap_numbers")]
@@ -186,15 +205,22 @@ def _lock_facts(common):
         in_with = [c for c in ast.walk(w) if isinstance(c, ast.Call) and extract.dotted(c.func) == "_wn.run"]
     locked_run = len(run_calls) == 1 and len(in_with) == 1 and run_calls[0] is in_with[0]
     # run() itself and its helpers must not be reachable from elsewhere in the class without the lock
+    run_fn = extract.find_def(common, "run", cls="_WrapNumbers")
     for helper in ("_add_dict", "_remove_dead_reminders"):
         users = [c for c in ast.walk(common) if isinstance(c, ast.Call) and extract.dotted(c.func).endswith("." + helper)]
-        run_fn = extract.find_def(common, "run", cls="_WrapNumbers")
         inside = [c for c in ast.walk(run_fn) if isinstance(c, ast.Call) and extract.dotted(c.func).endswith("." + helper)]
         if len(users) != len(inside):
             locked_run = False
-    locked_clear = all(_single_with_lock(extract.find_def(common, m, cls="_WrapNumbers"), "self.lock")
-                       for m in ("cache_clear", "cache_info"))
-    return locked_run, locked_clear
+    # the body of run() must not touch the lock itself (seeded C10-4 released it in the middle)
+    if any(isinstance(n, ast.Attribute) and n.attr == "lock" for n in ast.walk(run_fn)):
+        locked_run = False
+    return locked_run
+
+
+def _clear_under_lock(common):
+    """TOTAL, independent of `_run_under_lock`: bodies of cache_clear and cache_info are one `with self.lock:` each"""
+    return all(_single_with_lock(extract.find_def(common, m, cls="_WrapNumbers"), "self.lock")
+               for m in ("cache_clear", "cache_info"))
 
 
 def _strict_less(tree):
@@ -214,9 +240,9 @@ def _strict_less(tree):
                 elif isinstance(op, ast.GtE) and l == "old_value":
                     found.append(False)
                 else:
-                    raise NotRecognised("wrap comparison is %s" % extract.unparse(n.test))
+                    found.append(False)      # TOTAL: any other comparison is not the strict `<` (cfg_good fails)
     if len(found) != 1:
-        raise NotRecognised("wrap comparison not found exactly once")
+        return False
     return found[0]
 
 
@@ -459,11 +485,11 @@ def _rk_accumulates(tree):
     remkeys = [st for st in ast.walk(fn) if isinstance(st, ast.Assign) and len(st.targets) == 1
                and extract.dotted(st.targets[0]) == "remkey"]
     if len(remkeys) != 1 or extract.unparse(remkeys[0].value) != "(key, i)":
-        raise NotRecognised("remkey is not assigned once as (key, i)")
+        return False          # TOTAL: not the accumulate-only update the dict-level model transcribes (cfg_good_dict fails)
     tests = [n for n in ast.walk(fn) if isinstance(n, ast.If) and isinstance(n.test, ast.Compare)
              and {extract.dotted(n.test.left), extract.dotted(n.test.comparators[0])} == {"input_value", "old_value"}]
     if len(tests) != 1 or tests[0].orelse:
-        raise NotRecognised("wrap test not found exactly once (without else)")
+        return False
     body = sorted(extract.unparse(b) for b in tests[0].body)
     want = sorted(["self.reminders[name][remkey] += old_value", "self.reminder_keys[name][key].add(remkey)"])
     # anything else that touches reminder_keys in run() (an assignment as in seeded C10-3, an .add outside the wrap
@@ -483,14 +509,8 @@ def facts(snap, F):
 
     def net_name():
         tot, _, per = fe("net_io_counters")
-        if tot != per:
-            raise NotRecognised("net_io_counters uses two names (the model has one slot for it)")
-        return tot
-
-    def locks():
-        if "locks" not in d:
-            d["locks"] = _lock_facts(common)
-        return d["locks"]
+        # the model has ONE slot for net_io_counters: two names are no name it knows
+        return tot if tot == per else "?two names: %s / %s" % (per, tot)
 
     F.try_add("emptyFeedsWrap", "Bool",
               lambda: extract.lean_bool(fe("disk_io_counters")[1] and fe("net_io_counters")[1]),
@@ -517,9 +537,9 @@ def facts(snap, F):
     F.try_add("linuxSkipsPartitions", "Bool",
               lambda: extract.lean_bool(_linux_filter(init, extract.parse_module(snap, "_pslinux.py"))),
               "disk_io_counters forwards perdisk on LINUX and _pslinux.disk_io_counters(perdisk=False) skips every device that is not is_storage_device()")
-    F.try_add("runUnderLock", "Bool", lambda: extract.lean_bool(locks()[0]),
+    F.try_add("runUnderLock", "Bool", lambda: extract.lean_bool(_run_under_lock(common)),
               "the only call of _WrapNumbers.run is `_wn.run(...)` inside `with _wn.lock:` in wrap_numbers (one instance, one threading.Lock)")
-    F.try_add("clearUnderLock", "Bool", lambda: extract.lean_bool(locks()[1]),
+    F.try_add("clearUnderLock", "Bool", lambda: extract.lean_bool(_clear_under_lock(common)),
               "the bodies of _WrapNumbers.cache_clear and cache_info are a single `with self.lock:` block")
     def sul(fname):
         if ("sul", fname) not in d:
@@ -579,6 +599,8 @@ class Impl:
         self.tl = None                      # thread-local listings for the concurrent runs
         self.sample_hook = None
         self.orig = (self.plat.disk_io_counters, self.plat.net_io_counters)
+        self.render = None                  # lines of the fake /proc/diskstats (family `layouts`)
+        self.tmp = None
 
         def listing(nm):
             if self.tl is not None:
@@ -586,6 +608,12 @@ class Impl:
             return self.next_raw[nm]
 
         def fake_disk(perdisk=False):
+            if self.render is not None:
+                # family `layouts`: the REAL Linux platform function over a fake <procfs>/diskstats
+                r = self.real_disk(perdisk)
+                if self.sample_hook:
+                    self.sample_hook("disk", r)
+                return r
             r = {k: tuple(v) for k, st, v in listing("disk") if perdisk or st}
             if self.sample_hook:
                 self.sample_hook("disk", r)
@@ -605,9 +633,34 @@ class Impl:
         self.names = ctx.driver().batch([{"op": "names"}])[0]
         # translator fact: do the front ends take the raw sample under their own lock (fixes/C10-sample-under-lock)?
         self.sample_under_lock = bool(self.names.get("sample_under_lock"))
+        # … judged per front end (facts sampleUnderLockDisk / sampleUnderLockNet)
+        self.sul = {"disk": bool(self.names.get("sample_under_lock_disk")),
+                    "net": bool(self.names.get("sample_under_lock_net"))}
+
+    def real_disk(self, perdisk):
+        """`_pslinux.disk_io_counters(perdisk)` itself, reading a fake <procfs>/diskstats rendered from `self.render`
+        = [[name, [numeric fields after the name]], …]; `is_storage_device` scripted (partitions are not whole disks)"""
+        import os
+        import tempfile
+        if self.tmp is None:
+            self.tmp = tempfile.mkdtemp(prefix="psv-c10-")
+        with open(os.path.join(self.tmp, "diskstats"), "w") as f:
+            for minor, (nm, fields) in enumerate(self.render):
+                f.write("%4d %7d %s %s\n" % (8, minor, nm, " ".join(str(x) for x in fields)))
+        old_path, old_isd = self.ps.PROCFS_PATH, self.plat.is_storage_device
+        try:
+            self.ps.PROCFS_PATH = self.tmp
+            self.plat.is_storage_device = is_storage
+            return self.orig[0](perdisk=perdisk)
+        finally:
+            self.ps.PROCFS_PATH, self.plat.is_storage_device = old_path, old_isd
 
     def close(self):
         self.plat.disk_io_counters, self.plat.net_io_counters = self.orig
+        if self.tmp is not None:
+            import shutil
+            shutil.rmtree(self.tmp, ignore_errors=True)
+            self.tmp = None
 
     def reset(self):
         self.ps._common.wrap_numbers.cache_clear()
@@ -637,6 +690,7 @@ class Impl:
                 return {"kind": "dict", "raw": [[k, [int(x) for x in v]] for k, v in r.items()]}
             if op["op"] == "call":
                 self.next_raw[op["name"]] = listing_of(op)
+                self.render = op.get("lines")
                 kw = {"nowrap": op["nowrap"]}
                 kw["perdisk" if op["name"] == "disk" else "pernic"] = not op.get("total", False)
                 # the documented defaults are perdisk/pernic=False, nowrap=True: every other call leaves out the
@@ -661,6 +715,8 @@ class Impl:
             raise ValueError(op)
         except Exception as e:  # every exception is an observable, never a harness crash
             return {"kind": "exc", "exc": type(e).__name__}
+        finally:
+            self.render = None
 
 
 def driver_line(op):
@@ -889,6 +945,51 @@ def gen_history(rng, impl, family):
             listed = [k for k in keys if rng.random() > 0.2] or keys[:1]
             h.append({"op": "wn", "name": slot, "nowrap": True,
                       "raw": [[k, [rng.randrange(0, 4) for _ in range(rng.randrange(1, 4))]] for k in listed]})
+    elif family == "many":
+        # many devices (8-16) x full width: more than 64 entries in reminders/reminder_keys after the second call
+        # (the defaultdict reads of run() create them), wraps on many of them, a few devices leaving and returning —
+        # a size-based eviction of the reminder dicts (audit item 6) shows here
+        devs = ["dev%d" % i for i in range(rng.randrange(8, 17))]
+        cur = {d_: [rng.randrange(50, 500) for _ in range(impl.width[nm0])] for d_ in devs}
+        away = set()
+        for step in range(rng.randrange(5, 10)):
+            for d_ in devs:
+                for i in range(impl.width[nm0]):
+                    r = rng.random()
+                    if r < 0.25:
+                        cur[d_][i] = rng.randrange(0, cur[d_][i] + 1)
+                    elif r < 0.6:
+                        cur[d_][i] += rng.randrange(0, 50)
+            if rng.random() < 0.3:
+                d_ = rng.choice(devs)
+                (away.discard if d_ in away else away.add)(d_)
+            call(nm0, total=rng.random() < 0.2, raw=[[d_, list(cur[d_])] for d_ in devs if d_ not in away])
+    elif family == "layouts":
+        # the REAL `_pslinux.disk_io_counters` over a fake /proc/diskstats whose lines mix the kernel's layouts:
+        # 7 fields (partition line of Linux 2.6.0-2.6.24), 14, 18 (4.18+), 20 (5.5+). The expected raw values are
+        # computed here from the kernel's documented field order (not by psutil).
+        pool = [("sda", rng.choice([14, 18, 20])), ("sda1", 7), ("nvme0n1", rng.choice([14, 18, 20])),
+                ("nvme0n1p1", 7), ("dm-0", rng.choice([14, 18, 20]))]
+        rng.shuffle(pool)
+        pool = pool[:rng.randrange(2, 6)]
+        if not any(f == 7 for _, f in pool):
+            pool[0] = ("sda1", 7)
+        kf = {d_: [rng.randrange(20, 400) for _ in range(4 if f == 7 else f - 3)] for d_, f in pool}
+        gone = set()
+        for step in range(rng.randrange(3, 8)):
+            for d_, f in pool:
+                for i in range(len(kf[d_])):
+                    r = rng.random()
+                    if r < 0.2:
+                        kf[d_][i] = rng.randrange(0, kf[d_][i] + 1)
+                    elif r < 0.7:
+                        kf[d_][i] += rng.randrange(0, 30)
+            if rng.random() < 0.2:
+                d_ = rng.choice(pool)[0]
+                (gone.discard if d_ in gone else gone.add)(d_)
+            lines = [[d_, list(kf[d_])] for d_, f in pool if d_ not in gone]
+            h.append({"op": "call", "name": "disk", "nowrap": rng.random() < 0.9, "total": rng.random() < 0.25,
+                      "raw": [[d_, kernel_counters(fl)] for d_, fl in lines], "lines": lines})
     elif family == "total":
         # system-wide form only: wraps, devices joining and leaving
         call(nm0, total=True)
@@ -926,8 +1027,19 @@ def gen_history(rng, impl, family):
     return h
 
 
+def kernel_counters(fields):
+    """psutil's nine figures of one /proc/diskstats line from the numeric fields AFTER the device name, by the
+    kernel's documentation (iostats.rst): rd_ios rd_merges rd_sectors rd_ticks wr_ios wr_merges wr_sectors wr_ticks
+    in_flight io_ticks time_in_queue [+4 discard fields since 4.18] [+2 flush fields since 5.5]; a partition line of
+    2.6.0-2.6.24 has rd_ios rd_sectors wr_ios wr_sectors only. Sectors are 512 bytes."""
+    f = fields
+    if len(f) == 4:
+        return [f[0], f[2], f[1] * 512, f[3] * 512, 0, 0, 0, 0, 0]
+    return [f[0], f[4], f[2] * 512, f[6] * 512, f[3], f[7], f[1], f[5], f[9]]
+
+
 FAMILIES = ["two_wraps", "reappear", "all_vanish", "clear_between", "alt_nowrap", "interleaved",
-            "new_device", "mixed", "long", "total", "forms", "rename", "dicts", "ragged"]
+            "new_device", "mixed", "long", "total", "forms", "rename", "dicts", "ragged", "many", "layouts"]
 
 
 def history_features(h):
@@ -1144,12 +1256,75 @@ def correspond(ctx, res):
         res.extra["driver_lines"] = total_lines
         # real threads: outputs must equal the Lean lock model replaying the observed schedule, and the serial
         # specification in lock order
+        check_lines(ctx, impl, res, [h for h, t in zip(hists, tags) if t == "layouts"])
         conc = concurrent(ctx, impl, res, ctx.n(8, 200))
         res.extra["concurrent_runs"] = conc
-        overtake(ctx, impl, res)
-        hold_release(ctx, impl, res)
+        # the two forced two-thread schedules, for BOTH front ends and both forms (each front end has its own
+        # `with _nowrap_lock:` block; facts sampleUnderLockDisk / sampleUnderLockNet)
+        for fn, perdev in CONC_TARGETS:
+            overtake(ctx, impl, res, fn, perdev)
+            hold_release(ctx, impl, res, fn, perdev)
+        alias_first_call(ctx, impl, res)
     finally:
         impl.close()
+
+
+CONC_TARGETS = (("net", True), ("net", False), ("disk", True), ("disk", False))
+
+
+def check_lines(ctx, impl, res, hists):
+    """Every distinct /proc/diskstats line of the `layouts` histories: the extracted branch table applied by the
+    Lean model (`countersOf layouts`), the kernel's documented layout (`Spec.kernelCounters`) and the harness's own
+    reading (`kernel_counters`) must agree; plus one line of each length 1..22 (unknown lengths: ValueError)."""
+    seen, lines = set(), []
+    for h in hists:
+        for o in h:
+            for nm, fields in o.get("lines", []):
+                key = tuple(fields)
+                if key not in seen:
+                    seen.add(key)
+                    lines.append(list(fields))
+    lines = lines[:ctx.n(150, 3000)]
+    probes = [[i + 1 for i in range(n)] for n in range(0, 20)]
+    outs = ctx.driver().batch([{"op": "diskline", "vals": [8, 0, 0] + f} for f in lines + probes])
+    for f, m in zip(lines + probes, outs):
+        flen = len(f) + 3
+        known = flen in (7, 14, 18, 20)
+        want = {"kind": "line", "name_idx": 2, "counters": kernel_counters(f)} if known else None
+        if known and m["spec"] != want:
+            raise RuntimeError("C10 harness and Spec.kernelCounters disagree on %r: %r / %r" % (f, want, m["spec"]))
+        if (known and m["model"] != want) or (not known and flen < 18 and flen != 15 and m["model"].get("kind") != "exc"):
+            res.disagree("model", {"diskstats_fields_after_name": f}, None, m["model"], m["spec"],
+                         note="the branch table extracted from read_procfs() reads a %d-field /proc/diskstats line "
+                              "differently from the kernel's documented layout" % flen)
+        res.count("diskstats lines compared (branch table / kernel layout)")
+        res.count("diskstats line length:%d" % flen)
+
+
+def alias_first_call(ctx, impl, res):
+    """CHARACTERISATION, outside the statement (recorded, never a disagreement): on the first `nowrap=True` call
+    `run()` caches the very dict it returns, and the per-device form hands that object to the caller. A caller that
+    MUTATES the returned dict therefore edits the cache: after `d.pop('lo')` the next call sees `lo` as new and
+    reports it raw (100 -> 10 although it stayed present). The model has value semantics; see TRUSTED."""
+    impl.reset()
+    w = impl.width["net"]
+    obs = {}
+    try:
+        impl.next_raw["net"] = [["lo", True, [100] * w], ["eth0", True, [100] * w]]
+        d = impl.ps.net_io_counters(pernic=True, nowrap=True)
+        cache = impl.ps._common.wrap_numbers.cache_info()[0]
+        obs["first_result_is_the_cached_dict"] = any(d is v for v in cache.values())
+        d.pop("lo")
+        impl.next_raw["net"] = [["lo", True, [10] * w], ["eth0", True, [10] * w]]
+        r = impl.ps.net_io_counters(pernic=True, nowrap=True)
+        obs["after_caller_popped_lo"] = {k: int(v[0]) for k, v in r.items()}
+        obs["untouched_would_be"] = {"lo": 110, "eth0": 110}
+    except Exception as e:  # noqa: BLE001 - an exception is an observable
+        obs["exc"] = type(e).__name__
+    finally:
+        impl.reset()
+    res.extra["aliasing_of_first_result (outside the statement)"] = obs
+    res.count("family:alias_first_call (characterisation)")
 
 
 class LoggingLock:
@@ -1346,12 +1521,36 @@ def _per_thread(seq):
     return want
 
 
-def run_overtake(impl):
+CONC_DEV = {"net": "eth0", "disk": "sda"}      # `sda` is a whole disk: handed over by both forms
+
+
+def _conc_call(impl, tl, outs, t, fn, perdev, v):
+    """one public call of thread t listing the single device CONC_DEV[fn] with all counters = v; the system-wide
+    form's tuple is that device's tuple (one device), recorded in the same dict form"""
+    dev, w = CONC_DEV[fn], impl.width[fn]
+    tl.listing = [[dev, True, [v] * w]]
+    try:
+        r = impl.fn[fn](**{"nowrap": True, ("perdisk" if fn == "disk" else "pernic"): perdev})
+        if perdev:
+            outs[t].append({"kind": "dict", "raw": [[k, [int(x) for x in vv]] for k, vv in r.items()]})
+        else:
+            outs[t].append({"kind": "dict", "raw": [[dev, [int(x) for x in r]]]})
+    except Exception as e:  # noqa: BLE001 - an exception is an observable
+        outs[t].append({"kind": "exc", "exc": type(e).__name__})
+
+
+def conc_slot(ctx, impl, fn, perdev):
+    """which cache slot this form of this function uses is a translator fact: ask the driver"""
+    return ctx.driver().batch([{"op": "reset"}, {"op": "fcall", "fn": fn, "nowrap": True, "perdev": perdev,
+                                                 "listing": [[CONC_DEV[fn], True, [0] * impl.width[fn]]]}])[1]["slot"]
+
+
+def run_overtake(impl, fn="net", perdev=True):
     """Two REAL threads, deterministically: thread 0 is held right after its platform call (sample 100) until thread 1
-    (sample 105) has returned from net_io_counters(), goes on, and calls once more (110). Returns (per-thread results,
-    blocked) — blocked = thread 1 could not finish while thread 0 was held, i.e. the sample is taken under a lock."""
+    (sample 105) has returned from the public function, goes on, and calls once more (110). Returns (per-thread
+    results, blocked) — blocked = thread 1 could not finish while thread 0 was held, i.e. the sample is taken under a
+    lock."""
     impl.reset()
-    w = impl.width["net"]
     tl = threading.local()
     impl.tl = tl
     sampled0, done1 = threading.Event(), threading.Event()
@@ -1361,27 +1560,19 @@ def run_overtake(impl):
         if threading.current_thread().name == "c10-t0" and not state["held"]:
             state["held"] = True
             sampled0.set()
-            if not done1.wait(1.0):
+            if not done1.wait(0.6):
                 state["blocked"] = True
     impl.sample_hook = hook
     outs = {0: [], 1: []}
 
-    def call(t, v):
-        tl.listing = [["eth0", True, [v] * w]]
-        try:
-            r = impl.ps.net_io_counters(pernic=True, nowrap=True)
-            outs[t].append({"kind": "dict", "raw": [[k, [int(x) for x in vv]] for k, vv in r.items()]})
-        except Exception as e:  # noqa: BLE001 - an exception is an observable
-            outs[t].append({"kind": "exc", "exc": type(e).__name__})
-
     def t0():
-        call(0, 100)
+        _conc_call(impl, tl, outs, 0, fn, perdev, 100)
         done1.wait(5)       # (when the sample is under a lock thread 1 only gets through now)
-        call(0, 110)
+        _conc_call(impl, tl, outs, 0, fn, perdev, 110)
 
     def t1():
         sampled0.wait(5)
-        call(1, 105)
+        _conc_call(impl, tl, outs, 1, fn, perdev, 105)
         done1.set()
     try:
         ths = [threading.Thread(target=t0, name="c10-t0"), threading.Thread(target=t1, name="c10-t1")]
@@ -1396,57 +1587,64 @@ def run_overtake(impl):
     return outs, state["blocked"]
 
 
-def overtake_schedules(impl):
-    w = impl.width["net"]
-    smp = lambda t, v: {"a": "sample", "t": t, "name": "net", "raw": [["eth0", [v] * w]]}
+def overtake_schedules(impl, fn="net", slot="net"):
+    w = impl.width[fn]
+    smp = lambda t, v: {"a": "sample", "t": t, "name": slot, "raw": [[CONC_DEV[fn], [v] * w]]}
     overtaken = [smp(0, 100), smp(1, 105)] + _body(1) + _body(0) + [smp(0, 110)] + _body(0)
     in_order = [smp(0, 100)] + _body(0) + [smp(1, 105)] + _body(1) + [smp(0, 110)] + _body(0)
     return overtaken, in_order
 
 
-def overtake(ctx, impl, res):
-    """C10_lock_order_is_not_sampling_order / C10_concurrent_full_strength on two real threads (see run_overtake).
-    What the property promises: the values over the kernel snapshots IN SAMPLING ORDER (100, 105, 110: nothing went
-    backwards, so 100 / 105 / 110). Front ends that sample outside the lock (finding C10-sample-outside-lock) return
-    205 and 215 to thread 0: a failing input, tagged with the finding while it is listed as known. The result must in
-    any case be the one of the Lean lock model for the schedule that was forced."""
-    outs, blocked = run_overtake(impl)
-    overtaken, in_order = overtake_schedules(impl)
+def overtake(ctx, impl, res, fn="net", perdev=True):
+    """C10_lock_order_is_not_sampling_order / C10_concurrent_full_strength on two real threads (see run_overtake),
+    for front end `fn` in the form `perdev`. What the property promises: the values over the kernel snapshots IN
+    SAMPLING ORDER (100, 105, 110: nothing went backwards, so 100 / 105 / 110). A front end that samples outside
+    the lock returns 205 and 215 to thread 0: a failing input. The result must in any case be the one of the Lean
+    lock model for the schedule that was forced."""
+    outs, blocked = run_overtake(impl, fn, perdev)
+    slot = conc_slot(ctx, impl, fn, perdev)
+    overtaken, in_order = overtake_schedules(impl, fn, slot)
     drv = ctx.driver()
     m_over = drv.batch([{"op": "reset"}, {"op": "sched", "acts": overtaken}])[1]
     m_ord = ctx.driver().batch([{"op": "reset"}, {"op": "sched", "acts": in_order}])[1]
     spec = {t: v for t, v in _per_thread(m_ord["spec"]).items()}           # what the property promises
-    hist = {"scenario": "overtake", "concurrent_schedule": overtaken if not blocked else in_order,
-            "how": "thread 0 held between its platform call (100) and wrap_numbers until thread 1 (105) has returned; "
-                   "then thread 0 calls again (110)"}
+    hist = {"scenario": "overtake", "fn": fn, "perdev": perdev,
+            "concurrent_schedule": overtaken if not blocked else in_order,
+            "how": "%s_io_counters(%s=%s): thread 0 held between its platform call (100) and wrap_numbers until "
+                   "thread 1 (105) has returned; then thread 0 calls again (110)"
+                   % (fn, "perdisk" if fn == "disk" else "pernic", perdev)}
     known = any(f.get("id") == FINDING_SAMPLE for f in ctx.findings)
     bad = {t: outs.get(t) for t in (0, 1)} != {t: spec.get(t, []) for t in (0, 1)}
     if bad:
-        if not impl.sample_under_lock and known:
+        if not impl.sul[fn] and known:
             res.known_seen[FINDING_SAMPLE] = res.known_seen.get(FINDING_SAMPLE, 0) + 1
         res.disagree("spec", hist, outs, m_over["model"], m_ord["spec"],
-                     note="the kernel counter read 100, 105, 110 (never backwards) but the caller that was overtaken between "
-                          "its platform call and wrap_numbers got %s: lock order is not sampling order"
-                          % [o.get("raw", o) for o in outs.get(0, [])],
-                     finding=FINDING_SAMPLE if (known and not impl.sample_under_lock) else None)
+                     note="the kernel counter read 100, 105, 110 (never backwards) but the caller of %s_io_counters that "
+                          "was overtaken between its platform call and wrap_numbers got %s: lock order is not sampling order"
+                          % (fn, [o.get("raw", o) for o in outs.get(0, [])]),
+                     finding=FINDING_SAMPLE if (known and not impl.sul[fn]) else None)
     # model ↔ code: the forced schedule must be a run of the lock model with these results
-    m = m_ord if blocked else m_over
-    model = m["model"]
-    if impl.sample_under_lock != blocked:
-        res.disagree("model", hist, outs, model, m_ord["spec"],
-                     note="translator fact sampleUnderLock = %s, but thread 1 %s finish while thread 0 was held after its "
-                          "platform call" % (impl.sample_under_lock, "could not" if blocked else "could"))
-    elif model.get("kind") != "sched" or {t: outs.get(t) for t in (0, 1)} != {
-            t: _per_thread(model.get("outs")).get(t, []) for t in (0, 1)}:
-        res.disagree("model", hist, outs, model, m_ord["spec"],
-                     note="overtaking between platform call and wrap_numbers: real threads differ from the Lean lock model")
-    res.case(("conc-overtake", hist["concurrent_schedule"]), nontrivial=True)
+    if impl.sul[fn] != blocked:
+        res.disagree("model", hist, outs, m_over["model"], m_ord["spec"],
+                     note="translator fact sampleUnderLock%s = %s, but thread 1 %s finish while thread 0 was held after "
+                          "its platform call" % (fn.capitalize(), impl.sul[fn], "could not" if blocked else "could"))
+    elif impl.sample_under_lock == blocked:
+        # (when only ONE front end samples under the lock the lock model, which has one flag for both, is the
+        # model of neither schedule: the obligation cfg_sample_under_lock has failed and the other front end's run
+        # is the failing input)
+        model = (m_ord if blocked else m_over)["model"]
+        if model.get("kind") != "sched" or {t: outs.get(t) for t in (0, 1)} != {
+                t: _per_thread(model.get("outs")).get(t, []) for t in (0, 1)}:
+            res.disagree("model", hist, outs, model, m_ord["spec"],
+                         note="overtaking between platform call and wrap_numbers: real threads differ from the Lean lock model")
+    res.case(("conc-overtake", fn, perdev, hist["concurrent_schedule"]), nontrivial=True)
     res.count("family:concurrent_overtake")
-    res.extra["overtake"] = {"thread0": outs[0], "thread1": outs[1], "thread1_blocked_while_thread0_held": blocked,
-                             "promised": spec}
+    res.count("family:concurrent_overtake:%s:%s" % (fn, "per-device" if perdev else "system-wide"))
+    res.extra.setdefault("overtake", {})["%s/%s" % (fn, "per-device" if perdev else "system-wide")] = {
+        "thread0": outs[0], "thread1": outs[1], "thread1_blocked_while_thread0_held": blocked, "promised": spec}
 
 
-def run_hold_release(impl):
+def run_hold_release(impl, fn="net", perdev=True):
     """Two REAL threads, deterministically: thread 0 calls (100), calls again (10) and is held right AFTER the first
     release of `_wn.lock` inside that second call until thread 1's call (5) has returned. With the whole body of
     run() under the lock that release is the end of the body and nothing changes (100, 110 / 115). A body that gives
@@ -1454,7 +1652,6 @@ def run_hold_release(impl):
     impl.reset()
     wn = impl.ps._common._wn
     real_lock = wn.lock
-    w = impl.width["net"]
     tl = threading.local()
     impl.tl = tl
     released0, done1 = threading.Event(), threading.Event()
@@ -1466,26 +1663,18 @@ def run_hold_release(impl):
             state["n"] += 1
             if state["n"] == 2:
                 released0.set()
-                done1.wait(1.0)
+                done1.wait(0.6)
     wn.lock = LoggingLock(real_lock, events, after_release)
     outs = {0: [], 1: []}
 
-    def call(t, v):
-        tl.listing = [["eth0", True, [v] * w]]
-        try:
-            r = impl.ps.net_io_counters(pernic=True, nowrap=True)
-            outs[t].append({"kind": "dict", "raw": [[k, [int(x) for x in vv]] for k, vv in r.items()]})
-        except Exception as e:  # noqa: BLE001 - an exception is an observable
-            outs[t].append({"kind": "exc", "exc": type(e).__name__})
-
     def t0():
-        call(0, 100)
-        call(0, 10)
+        _conc_call(impl, tl, outs, 0, fn, perdev, 100)
+        _conc_call(impl, tl, outs, 0, fn, perdev, 10)
         released0.set()
 
     def t1():
         released0.wait(5)
-        call(1, 5)
+        _conc_call(impl, tl, outs, 1, fn, perdev, 5)
         done1.set()
     try:
         ths = [threading.Thread(target=t0, name="c10-t0"), threading.Thread(target=t1, name="c10-t1")]
@@ -1500,22 +1689,24 @@ def run_hold_release(impl):
     return outs
 
 
-def hold_release(ctx, impl, res):
+def hold_release(ctx, impl, res, fn="net", perdev=True):
     """C10_serialisable on two real threads with a forced schedule (see run_hold_release): the results must be those
     of the bodies executed serially in lock order — model and history-defined specification."""
-    outs = run_hold_release(impl)
-    w = impl.width["net"]
-    smp = lambda t, v: {"a": "sample", "t": t, "name": "net", "raw": [["eth0", [v] * w]]}
+    outs = run_hold_release(impl, fn, perdev)
+    w, dev = impl.width[fn], CONC_DEV[fn]
+    slot = conc_slot(ctx, impl, fn, perdev)
+    smp = lambda t, v: {"a": "sample", "t": t, "name": slot, "raw": [[dev, [v] * w]]}
     acts = [smp(0, 100)] + _body(0) + [smp(0, 10)] + _body(0) + [smp(1, 5)] + _body(1)
     m = ctx.driver().batch([{"op": "reset"}, {"op": "sched", "acts": acts}])[1]
-    hist = {"scenario": "hold_release", "concurrent_schedule": acts,
-            "how": "thread 0: call(100), call(10) held right after its first release of _wn.lock in the second call until "
-                   "thread 1's call(5) has returned"}
+    hist = {"scenario": "hold_release", "fn": fn, "perdev": perdev, "concurrent_schedule": acts,
+            "how": "%s_io_counters(%s=%s) — thread 0: call(100), call(10) held right after its first release of _wn.lock "
+                   "in the second call until thread 1's call(5) has returned"
+                   % (fn, "perdisk" if fn == "disk" else "pernic", perdev)}
     got = {t: outs.get(t) for t in (0, 1)}
     # the specification of the three bodies executed one after the other in lock order (asked for as a sequential
     # history, so that it is there even when the lock model rejects the schedule: fact runUnderLock = false)
     seq = ctx.driver().batch([{"op": "reset"}] + [
-        {"op": "fcall", "fn": "net", "nowrap": True, "perdev": True, "listing": [["eth0", True, [v] * w]]}
+        {"op": "fcall", "fn": fn, "nowrap": True, "perdev": True, "listing": [[dev, True, [v] * w]]}
         for v in (100, 10, 5)])[1:]
     spec = {0: [seq[0]["spec"], seq[1]["spec"]], 1: [seq[2]["spec"]]}
     model = {t: _per_thread(m["model"].get("outs")).get(t, []) for t in (0, 1)}
@@ -1525,8 +1716,9 @@ def hold_release(ctx, impl, res):
                           "are not those of the bodies executed serially in lock order" % got)
     elif got != model:
         res.disagree("model", hist, outs, m["model"], m["spec"], note="forced schedule: real threads differ from the lock model")
-    res.case(("conc-hold-release", acts), nontrivial=True)
+    res.case(("conc-hold-release", fn, perdev, acts), nontrivial=True)
     res.count("family:concurrent_hold_release")
+    res.count("family:concurrent_hold_release:%s:%s" % (fn, "per-device" if perdev else "system-wide"))
 
 
 def search(ctx, res, broken):
@@ -1568,12 +1760,12 @@ def shrink(ctx, d):
     return d
 
 
-def _scenario_fails(ctx, name):
+def _scenario_fails(ctx, name, fn="net", perdev=True):
     """re-run a forced two-thread schedule; True iff the real threads still violate the specification"""
     impl = Impl(ctx)
     try:
         r = runner_result()
-        (overtake if name == "overtake" else hold_release)(ctx, impl, r)
+        (overtake if name == "overtake" else hold_release)(ctx, impl, r, fn, perdev)
         return any(d["kind"] == "spec" for d in r.disagreements)
     finally:
         impl.close()
@@ -1586,7 +1778,8 @@ def runner_result():
 
 def replay(ctx, rp, res):
     if rp["input"].get("scenario") in ("overtake", "hold_release"):
-        return _scenario_fails(ctx, rp["input"]["scenario"])
+        return _scenario_fails(ctx, rp["input"]["scenario"], rp["input"].get("fn", "net"),
+                               rp["input"].get("perdev", True))
     if rp["input"].get("real_platform_calls"):
         return check_finding(ctx, {"id": FINDING_FORMS,
                                    "witness": {"calls": rp["input"]["real_platform_calls"]}}) == "reproduces"
